@@ -89,7 +89,7 @@ fn plain_nodes(item: &PItem, comb: u16, n: usize, depth: usize) -> Vec<Node> {
 
 fn inner_spec(item: &PItem, slot: usize) -> Spec {
     let nv = item.u("inv", 0);
-    Spec { never: slot < 64 && (nv >> slot) & 1 == 1, always: false, can_err: item.u("err", 0) != 0, eager: false }
+    Spec { never: slot < 64 && (nv >> slot) & 1 == 1, always: false, can_err: item.u("err", 0) != 0, eager: false, lazy: false }
 }
 
 fn try_nodes(item: &PItem, comb: u16, n: usize, depth: usize) -> Vec<TryNode> {
